@@ -207,12 +207,43 @@ fn scan_le(bytes: &[u8], crlf: bool) -> Option<String> {
     None
 }
 
+/// the same text with the other line ending (domain: CR only before LF)
+fn flip_le(bytes: &[u8], crlf: bool) -> Vec<u8> {
+    let t = String::from_utf8_lossy(bytes).to_string();
+    if crlf {
+        t.replace("\r\n", "\n").into_bytes()
+    } else {
+        t.replace("\r\n", "\n").replace('\n', "\r\n").into_bytes()
+    }
+}
+
+/// History dimension of C12: the generated files already exist with the same line text and the OTHER line
+/// ending (the source was converted between LF and CRLF since the last build): build / --needed must leave
+/// only the first line's ending. Returns a description of the first foreign terminator found.
+fn leftover_le_check(b: &Bench, src: &[u8], crlf: bool, out: &Option<Vec<u8>>, tmp: &Option<Vec<u8>>) -> Option<String> {
+    for mode in [Mode::Build, Mode::InMemoryBuild] {
+        b.reset(src, out.as_ref().map(|o| flip_le(o, crlf)).as_deref(), tmp.as_ref().map(|t| flip_le(t, crlf)).as_deref());
+        let r = b.run_no_reset(mode.clone(), true, true);
+        if r.v != V::Ok {
+            return Some(format!("{:?} over generated files with the other line ending: {}", mode, r.v.kind()));
+        }
+        for (what, bytes) in [("output", &r.out), ("temp target", &r.tmp)] {
+            if let Some(bytes) = bytes {
+                if let Some(bad) = scan_le(bytes, crlf) {
+                    return Some(format!("{:?} over generated files with the other line ending: {what} {:?} has {bad}", mode, show(bytes)));
+                }
+            }
+        }
+    }
+    None
+}
+
 pub fn run_c12(tier: &str) -> i32 {
     let rep = Report::new("C12", tier);
     let thorough = rep.thorough();
     let (l_all, l_run) = if thorough { (5, 4) } else { (4, 3) };
     rep.set("alphabet", json!(SIGMA_12));
-    rep.set("bounds", json!(format!("sources of <= {l_all} lines (<= {l_run} when a command is run) over 9 line shapes; every source line with its own terminator LF/CRLF (last line also none); included file in 4 line-ending variants; command output in 2")));
+    rep.set("bounds", json!(format!("sources of <= {l_all} lines (<= {l_run} when a command is run) over 9 line shapes; every source line with its own terminator LF/CRLF (last line also none); included file in 4 line-ending variants; command output in 3; every uniformly terminated source also rebuilt (build, --needed) over generated files that hold the same text with the other line ending")));
     rep.assume("domain: CR occurs only immediately before LF");
     let inc_variants: [(&str, &str); 4] = [("lf", "p\nq\n"), ("crlf", "p\r\nq\r\n"), ("mixed", "p\r\nq\nr\r\n"), ("nofinal", "p\r\nq")];
     let cmd_variants: [(&str, &str); 3] = [("lf", "c\nd\n"), ("crlf", "c\r\nd\r\n"), ("mixed", "c\nd\r\ne\n")];
@@ -264,15 +295,30 @@ pub fn run_c12(tier: &str) -> i32 {
                                         rep.add("cases_built_with_foreign_line_endings", 1);
                                     }
                                     shapes.insert(format!("{}:{}", crlf as u8, (has_inc as u8) | (has_run as u8) << 1 | (mixed as u8) << 2));
+                                    let mut clean = true;
                                     for (what, bytes) in [("output", &r.out), ("temp target", &r.tmp)] {
                                         if let Some(bytes) = bytes {
                                             if let Some(bad) = scan_le(bytes, crlf) {
+                                                clean = false;
                                                 rep.violate(
                                                     "foreign-line-ending",
                                                     format!("source {:?} (first line {}), include={iname} command={cname}: {what} {:?} has {bad}", show(&src), if crlf { "CRLF" } else { "LF" }, show(bytes)),
                                                     rj("C12", &src, json!({"inc": inc, "cmd": cmd})),
                                                 );
                                             }
+                                        }
+                                    }
+                                    // leftovers of a build of the same text with the other line ending
+                                    if clean && (mask == 0 || mask == (1 << n) - 1) && r.out.as_ref().map(|o| o.contains(&b'\n')).unwrap_or(false) {
+                                        rep.add("cases_rebuilt_over_other_line_ending", 2);
+                                        rep.tv(2);
+                                        rep.tr(2);
+                                        if let Some(bad) = leftover_le_check(&b, &src, crlf, &r.out, &r.tmp) {
+                                            rep.violate(
+                                                "foreign-line-ending-left-over",
+                                                format!("source {:?} (first line {}), include={iname} command={cname}: {bad}", show(&src), if crlf { "CRLF" } else { "LF" }),
+                                                rj("C12", &src, json!({"inc": inc, "cmd": cmd, "leftover": true})),
+                                            );
                                         }
                                     }
                                 }
@@ -619,6 +665,12 @@ pub fn replay(v: &serde_json::Value) -> bool {
             println!("replay source {:?}: {} out={:?} tmp={:?}", show(&src), r.v.kind(), r.out.as_ref().map(|x| show(x)), r.tmp.as_ref().map(|x| show(x)));
             for bytes in [&r.out, &r.tmp].into_iter().flatten() {
                 if let Some(bad) = scan_le(bytes, crlf) {
+                    println!("  {bad}");
+                    return true;
+                }
+            }
+            if v["extra"]["leftover"].as_bool() == Some(true) && r.v == V::Ok {
+                if let Some(bad) = leftover_le_check(&b, &src, crlf, &r.out, &r.tmp) {
                     println!("  {bad}");
                     return true;
                 }
